@@ -1,4 +1,7 @@
 import Proofs.BlsFeldman
+import Proofs.BlsLaws
+import Proofs.DkgEmit
+import Props.C05
 
 /-! # C07 / C08 (executable model) — the Feldman check of the BLS crypto record the driver runs accepts exactly what an
 honest dealer sends: by the group law of `E2` (Mathlib), not by sampling -/
@@ -33,7 +36,57 @@ theorem bls_honest_share_passes_check (a : List ℕ) (ha : ∀ c ∈ a, c < 2 ^ 
   rw [bls_feldman_identity a ha (i + 1) hx]
   exact beq_self_eq_true _
 
+/-- the vector reader of the BLS record accepts what its writer produces and derives the public key shares of the same
+    polynomial (codec round trip of `E2`, membership of the multiples of `g2`, Feldman identity) -/
+theorem bls_vector_reader_accepts_writer (a : List ℕ) (ha : ∀ c ∈ a, c < 2 ^ 800) (t size : ℕ)
+    (hlen : a.length = t + 1) (hs : size < 2 ^ 800) :
+    Driver.Dkg.blsOps.readVec t size (Driver.Dkg.blsOps.vecBytes a) = some (Driver.Dkg.blsOps.vecOfPoly size a) :=
+  Proofs.BlsLaws.readVec_vecBytes a ha t size hlen hs
+
+/-- **the laws `OpsLaws` hold for the BLS crypto record the driver runs against the implementation**, for every
+    polynomial of `threshold + 1` coefficients below `2^800` (the dealer's are below `r`) and every group size the
+    constructor allows: so `Props.C07.receiver_accepts_dealer_emission` applies to the real record, not only to toy ones -/
+theorem bls_ops_laws (size threshold : ℕ) (a : List ℕ) (ha : ∀ c ∈ a, c < 2 ^ 800) (hlen : a.length = threshold + 1)
+    (hs : size < 2 ^ 800) : Proofs.DkgAgree.OpsLaws Driver.Dkg.blsOps size threshold a := by
+  have hr0 : 0 < Bls.r := by decide +kernel
+  have pe : ∀ i, Driver.Dkg.polyEval a i < Bls.r := fun i => by
+    rw [Proofs.BlsFeldman.polyEval_mod]; exact Nat.mod_lt _ hr0
+  refine ⟨?_, bls_vector_reader_accepts_writer a ha threshold size hlen hs, ?_, ?_, ?_⟩
+  · show (a.flatMap fun c => Bls.writeE2 (Curve.mul Bls.E2 c Bls.g2)).length = Model.Dkg.verifVectorSize * (threshold + 1)
+    rw [← hlen]
+    clear hlen ha pe
+    induction a with
+    | nil => rfl
+    | cons c t ih =>
+      rw [List.flatMap_cons, List.length_append, Proofs.BlsLaws.writeE2_length, ih, List.length_cons]
+      unfold Model.Dkg.verifVectorSize
+      ring
+  · intro i
+    show (Bls.writeFr (Driver.Dkg.polyEval a i)).length = Model.Dkg.shareSize
+    unfold Bls.writeFr
+    rw [Model.natBE_length]; rfl
+  · intro i hne
+    show (match Bls.readFrStar (Bls.writeFr (Driver.Dkg.polyEval a i)) with | .ok x => some x | .error _ => none) =
+      some (Driver.Dkg.polyEval a i)
+    have : Bls.readFrStar (Bls.writeFr (Driver.Dkg.polyEval a i)) = .ok (Driver.Dkg.polyEval a i) := by
+      rw [Props.C05.readFrStar_ok_iff]
+      unfold Bls.writeFr
+      have h256 : (256 : ℕ) ^ 32 = 2 ^ 256 := by norm_num
+      have hr256 : Bls.r < 2 ^ 256 := by decide +kernel
+      refine ⟨Model.natBE_length _ _, ?_, Nat.pos_of_ne_zero hne, pe i⟩
+      rw [Model.beNat_natBE, h256, Nat.mod_eq_of_lt (lt_trans (pe i) hr256)]
+    rw [this]
+  · intro i hi
+    show (match ((List.range size).map fun j => Curve.mul Bls.E2 (Driver.Dkg.polyEval a (j + 1)) Bls.g2)[i]? with
+      | some y => Curve.mul Bls.E2 (Driver.Dkg.polyEval a (i + 1)) Bls.g2 == y
+      | none => false) = true
+    rw [List.getElem?_map, List.getElem?_range hi]
+    simp only [Option.map_some]
+    exact beq_self_eq_true _
+
 end Props.C07Model
 
 #print axioms Props.C07Model.bls_feldman_identity
 #print axioms Props.C07Model.bls_honest_share_passes_check
+#print axioms Props.C07Model.bls_vector_reader_accepts_writer
+#print axioms Props.C07Model.bls_ops_laws
